@@ -57,7 +57,7 @@ def showMErr : MErr → String
 swapImpact(e,pos,neg) swapFee(pos,neg,recv) posImpact(e,pos,neg) orderFee(pos,neg,recv)
 distFactor minPip borrowRecv reserve oiReserve pnlDeposit pnlWithdrawal pnlTrader pnlAdl minPnlAdl
 maxPoolAmount maxPoolValueForDeposit maxOi ignoreOi divisor fundingAdj viSwaps viPositions -/
-def parseCfg (W : Nat) (xs : List Nat) : Option (MarketConfig × Bool × Bool) :=
+def parseCfg30 (W : Nat) (xs : List Nat) : Option (MarketConfig × Bool × Bool) :=
   if xs.any (fun x => x ≥ 2 ^ W) then none else
   match xs with
   | [sie, sip, sin, sfp, sfn, sfr, pie, pip, pin, ofp, ofn, ofr, df, mp, br, rf, oirf, pd, pw, pt, pa, mpa,
@@ -71,6 +71,16 @@ def parseCfg (W : Nat) (xs : List Nat) : Option (MarketConfig × Bool × Bool) :
             maxOpenInterest := moi, ignoreOiForUsage := ign == 1, divisor := dv, fundingAdjustment := fa },
           vi == 1, vp == 1)
   | _ => none
+
+/-- 30 numbers, or 31: the optional last one is the swap fee DISCOUNT factor
+(`FeeParams::with_discount_factor`; absent = `None` = 0) -/
+def parseCfg (W : Nat) (xs : List Nat) : Option (MarketConfig × Bool × Bool) :=
+  if xs.length = 31 then
+    match parseCfg30 W (xs.take 30), xs.drop 30 with
+    | some (cfg, vi, vp), [d] =>
+      if d ≥ 2 ^ W then none else some ({ cfg with swapFee := { cfg.swapFee with disc := d } }, vi, vp)
+    | _, _ => none
+  else parseCfg30 W xs
 
 def parsePrices (W : Nat) (xs : List Nat) : Option Prices :=
   if xs.any (fun x => x ≥ 2 ^ W) then none else
